@@ -48,6 +48,10 @@ def run_circuit(build, driver, *, storage=None, horizon_s=None, shutdown=True, *
             except Exception as err:     # start-up failed
                 res.init_exc = err
                 return
+            except asyncio.CancelledError as err:
+                # edzed.run() cancels the supporting tasks when the simulation task ends first
+                res.init_exc = circuit.error if circuit.error is not None else err
+                return
             try:
                 res.value = await driver(ctx, circuit, loop)
             except Exception as err:
